@@ -35,6 +35,7 @@ import (
 func init() {
 	hk.Register("c16", "sweep", sweep)
 	hk.Register("c16", "interleave", interleave)
+	hk.Register("c16", "handoff", handoff)
 }
 
 const key = "entry"
@@ -392,6 +393,23 @@ func interleave(a *hk.Args) error {
 		}
 		out.Write(ilEvent{Op: "Stored", ID: id, C: "A", V: 1, Result: "", Quiet: true})
 		var mu sync.Mutex
+		// the order of the critical sections of the lock-based cache: every successful creation of the entry's lock directory by a
+		// client that is inside Store is reported (the trace specification orders overlapping Stores by it)
+		lockDir, _ := w.lockPaths()
+		storingNow := map[string]bool{}
+		var smu sync.Mutex
+		w.gate.OnEvent = func(g *fsgate.Event) {
+			if g.Op == "Mkdir" && g.OK && filepath.Clean(g.Path) == lockDir {
+				smu.Lock()
+				in := storingNow[g.Owner]
+				smu.Unlock()
+				if in {
+					out.Write(ilEvent{Op: "LockAcquired", ID: id, C: g.Owner})
+				}
+			}
+		}
+		// one run in three: a backend call of one of the Stores fails (an I/O error at a random point of it)
+		faulty := rng.Intn(3) == 0
 		inflight := map[string]bool{}
 		overlapped := map[string]bool{}
 		type done struct {
@@ -408,7 +426,14 @@ func interleave(a *hk.Args) error {
 			inflight[c] = true
 			mu.Unlock()
 			if api == "Store" {
+				smu.Lock()
+				storingNow[c] = true
+				smu.Unlock()
 				out.Write(ilEvent{Op: "StoreBegin", ID: id, C: c, V: v})
+				if faulty {
+					faulty = false
+					w.gate.SetFault(c, fsgate.Fault{At: w.gate.Count(c) + 1 + rng.Intn(60), Action: fsgate.Fail})
+				}
 			}
 			if api == "Fetch" {
 				out.Write(ilEvent{Op: "FetchBegin", ID: id, C: c})
@@ -423,6 +448,11 @@ func interleave(a *hk.Args) error {
 					err = cl.repo.Fetch(ctx, key, cl.dest)
 				case "Clean":
 					err = cl.repo.CleanEntry(ctx, key)
+				}
+				if api == "Store" {
+					smu.Lock()
+					storingNow[c] = false
+					smu.Unlock()
 				}
 				doneCh <- done{c, api, hk.Kind(err), v}
 			}()
@@ -527,3 +557,188 @@ func interleave(a *hk.Args) error {
 }
 
 var _ = strings.TrimSpace
+
+// ---- hand-over sweep: a failing Store and the Store that gets the lock next ---------------------------------------
+//
+// Lock-based cache.  Store(v2) of client A is made to fail at backend call k; as soon as A has given the entry's lock
+// back (its removal of the lock directory), whatever A still wants to do on the filesystem is held back, client B
+// runs a complete Store(v3), and only then A is let go.  The critical section of A came first: B's version must be
+// what a Fetch returns afterwards (SharedCacheTrace.tla orders the two Stores by their LockAcquired events).
+
+func handoff(a *hk.Args) error {
+	out, err := hk.NewWriter(a.Out)
+	if err != nil {
+		return err
+	}
+	defer out.Close()
+	rng := rand.New(rand.NewSource(a.Seed))
+	ctx := context.Background()
+	id := 200000
+	for _, backend := range []string{"mem", "os"} {
+		// dry run: the backend calls of Store(v2) over v1
+		w, err := newWorld(backend, "mutable", []string{"A", "B"}, a.Dir)
+		if err != nil {
+			return err
+		}
+		if r := call(func() error { return w.clients["A"].repo.Store(ctx, key, w.src(1)) }, 10*time.Second); r != "" {
+			w.close()
+			return fmt.Errorf("mutable/%s: baseline Store(v1) failed: %s", backend, r)
+		}
+		before := w.gate.Count("A")
+		n0 := w.gate.LogLen()
+		_ = call(func() error { return w.clients["A"].repo.Store(ctx, key, w.src(2)) }, 10*time.Second)
+		total := w.gate.Count("A") - before
+		always := map[int]bool{}
+		idx := 0
+		for _, g := range w.gate.Log()[n0:] {
+			if g.Owner != "A" {
+				continue
+			}
+			idx++
+			if g.Mut && strings.Contains(g.Path, "remote") {
+				always[idx] = true
+			}
+		}
+		w.close()
+		stride := 1
+		if a.Tier != "thorough" && total > 40 {
+			stride = total/40 + 1
+		}
+		off := 0
+		if stride > 1 {
+			off = rng.Intn(stride)
+		}
+		for k := 1; k <= total; k++ {
+			if (k-1-off)%stride != 0 && !always[k] {
+				continue
+			}
+			id++
+			if err := oneHandoff(id, backend, k, a.Dir, out); err != nil {
+				return err
+			}
+			out.Flush()
+		}
+	}
+	out.Write(ilEvent{Op: "End"})
+	return nil
+}
+
+func oneHandoff(id int, backend string, k int, scratch string, out *hk.Writer) error {
+	ctx := context.Background()
+	w, err := newWorld(backend, "mutable", []string{"A", "B"}, scratch)
+	if err != nil {
+		return err
+	}
+	defer w.close()
+	out.Write(ilEvent{Op: "Begin", ID: id, Cache: "mutable", Backend: backend, Seq: k})
+	if r := call(func() error { return w.clients["A"].repo.Store(ctx, key, w.src(1)) }, 10*time.Second); r != "" {
+		return fmt.Errorf("baseline Store(v1) failed: %s", r)
+	}
+	out.Write(ilEvent{Op: "Stored", ID: id, C: "A", V: 1, Result: "", Quiet: true})
+	lockDir, _ := w.lockPaths()
+	var smu sync.Mutex
+	storingNow := map[string]bool{}
+	released := make(chan struct{}, 1)
+	w.gate.OnEvent = func(g *fsgate.Event) {
+		if filepath.Clean(g.Path) != lockDir || !g.OK {
+			return
+		}
+		smu.Lock()
+		in := storingNow[g.Owner]
+		smu.Unlock()
+		if !in {
+			return
+		}
+		switch g.Op {
+		case "Mkdir":
+			out.Write(ilEvent{Op: "LockAcquired", ID: id, C: g.Owner})
+		case "Remove", "RemoveAll":
+			if g.Owner == "A" {
+				// A gave the lock back: from here on its backend calls wait
+				w.gate.SetGating("A", true)
+				select {
+				case released <- struct{}{}:
+				default:
+				}
+			}
+		}
+	}
+	w.gate.SetGating("A", false)
+	w.gate.SetGating("B", false)
+	w.gate.SetGating("A.hb", false)
+	w.gate.SetGating("B.hb", false)
+	w.gate.SetFault("A", fsgate.Fault{At: w.gate.Count("A") + k, Action: fsgate.Fail})
+	smu.Lock()
+	storingNow["A"] = true
+	smu.Unlock()
+	out.Write(ilEvent{Op: "StoreBegin", ID: id, C: "A", V: 2})
+	aDone := make(chan string, 1)
+	go func() {
+		aDone <- call(func() error { return w.clients["A"].repo.Store(ctx, key, w.src(2)) }, 8*time.Second)
+	}()
+	aRes, aFinished := "", false
+	select {
+	case aRes = <-aDone:
+		aFinished = true
+	case <-released:
+		// give A the time to come to rest: either it returns or it parks at its next backend call
+		for t := time.Now(); time.Since(t) < 300*time.Millisecond; time.Sleep(time.Millisecond) {
+			if w.gate.Peek("A") != nil {
+				break
+			}
+			select {
+			case aRes = <-aDone:
+				aFinished = true
+			default:
+			}
+			if aFinished {
+				break
+			}
+		}
+	case <-time.After(9 * time.Second):
+		return fmt.Errorf("hand-over scenario %d: Store(v2) with a fault at call %d neither returned nor released the lock", id, k)
+	}
+	if aFinished {
+		smu.Lock()
+		storingNow["A"] = false
+		smu.Unlock()
+		out.Write(ilEvent{Op: "Stored", ID: id, C: "A", V: 2, Result: aRes})
+	}
+	// B: a complete Store
+	smu.Lock()
+	storingNow["B"] = true
+	smu.Unlock()
+	out.Write(ilEvent{Op: "StoreBegin", ID: id, C: "B", V: 3})
+	bRes := call(func() error { return w.clients["B"].repo.Store(ctx, key, w.src(3)) }, 8*time.Second)
+	smu.Lock()
+	storingNow["B"] = false
+	smu.Unlock()
+	out.Write(ilEvent{Op: "Stored", ID: id, C: "B", V: 3, Result: bRes})
+	if !aFinished {
+		// now A may finish what it had left
+		w.gate.SetGating("A", false)
+		for t := time.Now(); time.Since(t) < 8*time.Second; {
+			if p := w.gate.Peek("A"); p != nil {
+				w.gate.Release(p, fsgate.Proceed)
+			}
+			select {
+			case aRes = <-aDone:
+				aFinished = true
+			case <-time.After(time.Millisecond):
+			}
+			if aFinished {
+				break
+			}
+		}
+		smu.Lock()
+		storingNow["A"] = false
+		smu.Unlock()
+		if !aFinished {
+			aRes = "blocked"
+		}
+		out.Write(ilEvent{Op: "Stored", ID: id, C: "A", V: 2, Result: aRes})
+	}
+	res := call(func() error { return w.clients["B"].repo.Fetch(ctx, key, w.clients["B"].dest) }, 5*time.Second)
+	out.Write(ilEvent{Op: "FinalFetch", ID: id, C: "B", Result: res, Match: w.classify(w.clients["B"].dest), Quiet: true})
+	return nil
+}
